@@ -66,6 +66,46 @@ class Labels:
             pass
         return r
 
+    @staticmethod
+    def _components_of(t):
+        """t = Path(X).parts / X.split(sep)  ->  the term set X, else None."""
+        if t[0] == "attr" and t[2] == "parts":
+            for b in t[1]:
+                if b[0] == "ext" and b[1] in ("pathlib.Path", "pathlib.PurePath") and len(b[2]) == 1:
+                    return b[2][0]
+        if t[0] == "meth" and t[1] == "split":
+            return t[2]
+        return None
+
+    def _component_drop(self, t):
+        """Path(X).parts[len(Path(P).parts):] - the components of X after those of P.  Like relpath(X, P) this is the
+        relative location, provided X is spelled with P as its prefix: both as given by the caller or both normalised."""
+        base, index = t[1], t[2]
+        if len(base) != 1 or len(index) != 1:
+            return None
+        (b,), (ix,) = tuple(base), tuple(index)
+        X = self._components_of(b)
+        if X is None or not (ix[0] == "op" and ix[1] == "slice"):
+            return None
+        lo, hi, step = ix[2]
+        if any(x != ("const", None) for x in hi) or any(x != ("const", None) for x in step) or len(lo) != 1:
+            return None
+        (l,) = tuple(lo)
+        if not (l[0] == "ext" and l[1] == "builtins.len" and len(l[2]) == 1 and len(l[2][0]) == 1):
+            return None
+        P = self._components_of(next(iter(l[2][0])))
+        if P is None:
+            return None
+        lx, lp = self.of(X), self.of(P)
+        pathish = {"raw-path", "norm-path", "entry-names"}
+        out = {x for x in (lx | lp) if x not in pathish}
+        kx, kp_ = lx & {"raw-path", "norm-path"}, lp & {"raw-path", "norm-path"}
+        if kx and kx == kp_ and len(kx) == 1:
+            out.add("rel")
+            return out
+        # the listing and the root are spelled differently: the number of components dropped is that of the other spelling
+        return out | kx | kp_ | {"raw-path"}
+
     def _args(self, t):
         out = set()
         for a in t[2]:
@@ -134,9 +174,14 @@ class Labels:
                 return out
             if d == "builtins.sorted":
                 kw = dict(t[3])
-                if "key" in kw or "reverse" in kw:
+                if "key" not in kw:
+                    return args - {"enum-order"}          # reverse=True is still one fixed total order
+                verdict = sort_key_verdict(kw["key"])
+                if verdict == "injective":
+                    return args - {"enum-order"}          # distinct entries never tie: the result does not depend on the input order
+                if verdict == "ties":
                     return args | {"custom-order"}
-                return args - {"enum-order"}
+                return args | {"unknown:sort key"}
             if d in ("builtins.set", "builtins.frozenset"):
                 return args | {"enum-order"}
             if d in PASS or d.startswith("os.path.") or d.startswith("builtins."):
@@ -174,6 +219,9 @@ class Labels:
                 out |= self.of(a)
             return out
         if k == "sub":
+            drop = self._component_drop(t)
+            if drop is not None:
+                return drop
             # reading an element: keys under which values were stored do not flow into the value read
             out = set()
             for b in t[1]:
@@ -237,6 +285,68 @@ def recovery_hook(ctx, init):
                         return frozenset([("param", init.qual, "path")])
         return None
     return hook
+
+
+INJECTIVE_CALLS = {"str", "os.fspath", "os.fsencode", "Path", "PurePath", "pathlib.Path", "pathlib.PurePath", "PurePosixPath", "tuple", "list", "repr"}
+NON_INJECTIVE_ATTRS = {"lower", "upper", "casefold", "name", "stem", "suffix", "suffixes", "title", "swapcase", "strip", "parent"}
+NON_INJECTIVE_CALLS = {"len", "os.path.basename", "os.path.getsize", "os.path.getmtime", "os.path.dirname", "os.path.splitext", "hash", "os.path.normcase", "int", "float"}
+
+
+def sort_key_verdict(key_terms):
+    """'injective' - distinct elements get distinct keys, so sorted() yields one order whatever order the elements arrive in;
+    'ties' - distinct elements can share a key (a stable sort then keeps the arrival order of the operating system);
+    'unknown' otherwise."""
+    verdicts = set()
+    for t in key_terms:
+        if t[0] == "lambda" and len(t) > 1:
+            try:
+                lam = ast.parse(t[1], mode="eval").body
+            except SyntaxError:
+                verdicts.add("unknown")
+                continue
+            if not (isinstance(lam, ast.Lambda) and len(lam.args.args) == 1):
+                verdicts.add("unknown")
+                continue
+            verdicts.add(_expr_injective(lam.body, lam.args.args[0].arg))
+        elif t[0] == "ext":
+            short = t[1].replace("builtins.", "")
+            verdicts.add("injective" if short in INJECTIVE_CALLS else ("ties" if short in NON_INJECTIVE_CALLS or short.split(".")[-1] in NON_INJECTIVE_ATTRS else "unknown"))
+        else:
+            verdicts.add("unknown")
+    if verdicts == {"injective"}:
+        return "injective"
+    if "ties" in verdicts:
+        return "ties"
+    return "unknown"
+
+
+def _expr_injective(e, x):
+    """Is the expression an injective function of the variable x (for path strings)?"""
+    if isinstance(e, ast.Name) and e.id == x:
+        return "injective"
+    if isinstance(e, ast.Tuple):
+        vs = [_expr_injective(el, x) for el in e.elts]
+        return "injective" if "injective" in vs else ("ties" if all(v == "ties" for v in vs) else "unknown")
+    if isinstance(e, ast.Call):
+        name = norm(e.func)
+        if name in INJECTIVE_CALLS and len(e.args) == 1 and not e.keywords:
+            return _expr_injective(e.args[0], x)
+        if name in NON_INJECTIVE_CALLS:
+            return "ties"
+        if isinstance(e.func, ast.Attribute) and e.func.attr in ("split", "encode", "rsplit") and _expr_injective(e.func.value, x) == "injective":
+            return "injective"       # splitting at a separator / encoding loses nothing
+        if isinstance(e.func, ast.Attribute) and e.func.attr in NON_INJECTIVE_ATTRS:
+            return "ties"
+        return "unknown"
+    if isinstance(e, ast.Attribute):
+        if e.attr in ("parts",) and _expr_injective(e.value, x) == "injective":
+            return "injective"
+        if e.attr in NON_INJECTIVE_ATTRS:
+            return "ties"
+        return "unknown"
+    if isinstance(e, ast.Constant):
+        return "ties"
+    return "unknown"
 
 
 def isfile_guarded(ctx, fn, node):
